@@ -89,7 +89,7 @@ def Writer.write (w : Writer) (b : Bytes) : Writer × Bool :=
   match w.failFrom with
   | some k => if w.calls ≥ k then ({ w with calls := w.calls + 1 }, false)
               else ({ w with out := w.out ++ b, calls := w.calls + 1 }, true)
-  | none => ({ w with out := w.out ++ b, calls := w.calls + 1 }, true)
+  | none => ({ w with out := w.out ++ b }, true)     -- `calls` only matters for a failing writer
 
 /-- run actions; stop at the first failed write -/
 def exec (s : Enc) : List Act → Enc × Bool
